@@ -227,7 +227,9 @@ theorem en_loop {c : Cfg} {st : StB} (hB : InvB c st) (hP : InvP c st) {s : Nat}
         · simp only [ha1]; exact ⟨_, rfl⟩
         · split
           · simp only [ha1]; exact ⟨_, rfl⟩
-          · simp only [ha2]; exact ⟨_, rfl⟩
+          · split
+            · simp only [ha1]; exact ⟨_, rfl⟩
+            · simp only [ha2]; exact ⟨_, rfl⟩
       obtain ⟨st', h⟩ := this
       exact ⟨.react s, st', not_tick_of trivial, h⟩
 
